@@ -221,6 +221,12 @@ func runC06(c *Collector, r *Rng, thorough bool) {
 		{"DKey", "a40102200121" + "5820" + zeros(31) + "01" + "22f5"}, {"DKey", "a40102200121" + "5820" + zeros(31) + "01" + "22f4"},
 		{"DKey", "a40102200121" + "5820" + zeros(31) + "05" + "22f5"}, {"DKey", "a40102200321" + "5842" + zeros(65) + "03" + "22f5"},
 		{"DKey", "a50102200121" + "5820" + zeros(31) + "01" + "22f5" + "23" + "5820" + ones(32)},
+		// key_ops entries outside the registry: negative, beyond the word size, extreme; alone and next to sign / verify
+		{"DKey", "a40101048120" + "2006" + "215820" + ones(32)}, {"DKey", "a4010104820120" + "2006" + "235820" + ones(32)}, {"DKey", "a401010483200102" + "2006" + "215820" + ones(32)},
+		{"DKey", "a401010481383f" + "2006" + "215820" + ones(32)}, {"DKey", "a40101048138ff" + "2006" + "235820" + ones(32)}, {"DKey", "a4010104811840" + "2006" + "215820" + ones(32)},
+		{"DKey", "a40101048118ff" + "2006" + "235820" + ones(32)}, {"DKey", "a401010481" + "1b7fffffffffffffff" + "2006" + "215820" + ones(32)}, {"DKey", "a401010481" + "3b7fffffffffffffff" + "2006" + "235820" + ones(32)},
+		{"DKey", "a401010482" + "3b7fffffffffffffff02" + "2006" + "215820" + ones(32)}, {"DKey", "a5010204812020012158" + "20" + ones(32) + "225820" + ones(32)},
+		{"DKey", "a401010480" + "2006" + "215820" + ones(32)}, {"DKey", "a4010104810020" + "06" + "215820" + ones(32)},
 	} {
 		in := unhex(cs.hex)
 		d := timed(cs.kind, in)
